@@ -267,25 +267,36 @@ def run_setgroups(desc, seed, res):
         req = r.getrandbits(16) if r.random() < 0.8 else r.choice([0, 0xFFFF, cur])
         pairs.append((cur, req))
     kinds = ["short", "int", "group", "broadcast", "unaddressed"]
+    forced_group = {}
+    if desc["part"] == 0:
+        # every destination group 0..15, leaving and keeping that group
+        for g in range(16):
+            for _ in range(6):
+                cur = r.getrandbits(16) | (1 << g)
+                req = r.getrandbits(16)
+                for rq in (req & ~(1 << g), req | (1 << g)):
+                    forced_group[len(pairs)] = g
+                    pairs.append((cur, rq & 0xFFFF))
     for idx, (cur, req) in enumerate(pairs):
         curset = {i for i in range(16) if (cur >> i) & 1}
         reqset = {i for i in range(16) if (req >> i) & 1}
-        kind = kinds[idx % len(kinds)]
+        kind = "group" if idx in forced_group else kinds[idx % len(kinds)]
         res.evaluations += 1
         res.distinct += 1
         res.hit("setgroups_checked")
-        target = Gear(short=5 if kind != "unaddressed" else None, groups=set(curset), name="target")
+        ta = r.randrange(64)
+        target = Gear(short=ta if kind != "unaddressed" else None, groups=set(curset), name="target")
         others_groups = {i for i in range(16) if (r.getrandbits(16) >> i) & 1}
-        second = Gear(short=6 if kind != "unaddressed" else None, groups=set(others_groups), name="second")
-        bystander = Gear(short=9, groups={1, 2, 14}, name="bystander")
+        second = Gear(short=(ta + 1) % 64 if kind != "unaddressed" else None, groups=set(others_groups), name="second")
+        bystander = Gear(short=(ta + 7) % 64, groups={1, 2, 14}, name="bystander")
         if kind == "short":
-            dest = address.GearShort(5)
+            dest = address.GearShort(ta)
             addressed = [target]
         elif kind == "int":
-            dest = 5
+            dest = ta
             addressed = [target]
         elif kind == "group":
-            gsel = sorted(curset)[len(curset) // 2] if curset else None
+            gsel = forced_group.get(idx, r.choice(sorted(curset)) if curset else None)
             if gsel is None:
                 continue
             dest = address.GearGroup(gsel)
